@@ -302,6 +302,35 @@ pub fn run(ctx: &mut Ctx) {
             }
         }
     }
+    // dispatch side, operand level: an operation-shaped operand of an operator is rule text too - whatever
+    // its neighbours are (benign, null, a missing variable, an empty array) it is evaluated or skipped, never
+    // handed back as the literal it looks like
+    for name in OPS {
+        for n in 1..=3usize {
+            if !refmodel::arity_ok(name, n) || !ctx.mine() {
+                continue;
+            }
+            for p in 0..n {
+                for fill in [None, Some(json!(null)), Some(json!({"var": "nope"})), Some(json!([]))] {
+                    for probe in [json!({"var": "s"}), json!({"cat": ["S", "ECRET"]}), json!({"if": [true, "SECRET"]})] {
+                        ctx.edge();
+                        let mut args = match &fill {
+                            None => crate::spaces::c03::benign(name, n),
+                            Some(f) => vec![f.clone(); n],
+                        };
+                        args[p] = probe.clone();
+                        let r = op(name, args);
+                        let o = ctx.check("dispatch:operand", &r, &ds[2]);
+                        if let Some(v) = o.ok() {
+                            if v.to_string().contains(&probe.to_string()) {
+                                ctx.law_fail("law:operand-is-rule-text", &r, &ds[2], "the operand evaluated (or skipped)".into(), o.show());
+                            }
+                        }
+                    }
+                }
+            }
+        }
+    }
     // dispatch side at large operand counts (8- and 16-bit count boundaries included): the operator is
     // still found and still sees every operand
     {
